@@ -32,6 +32,21 @@ def opVelocity (B : Buf) : String :=
   | .err e => s!"ERR {e.name}"
   | .panic p => s!"PANIC {p}"
 
+def framePos (B : Buf) : Option Alt :=
+  match decode B with
+  | .ok f => match frameME f.df with
+    | some (.airPosBaro a) => some a
+    | some (.airPosGnss a) => some a
+    | _ => none
+  | _ => none
+
+def opCpr (A B : Buf) : String :=
+  match framePos A, framePos B with
+  | some a, some b => match getPosition (α := Float) a b with
+    | some p => s!"POS some lat={p.lat * 1000.0} lon={p.lon * 1000.0}"
+    | none => "POS none"
+  | _, _ => "POS n/a"
+
 def runOp (line : String) : String :=
   match line.trimAscii.toString.splitOn " " |>.filter (· ≠ "") with
   | ["F", h] => match parseBuf h with
@@ -40,6 +55,9 @@ def runOp (line : String) : String :=
   | ["V", h] => match parseBuf h with
       | some B => opVelocity B
       | none => "BADOP"
+  | ["P", a, b] => match parseBuf a, parseBuf b with
+      | some A, some B => opCpr A B
+      | _, _ => "BADOP"
   | ["I", h] => match parseBuf h with
       | some ⟨[x, y, z]⟩ =>
         let a := x.toNat * 65536 + y.toNat * 256 + z.toNat
